@@ -31,13 +31,16 @@ class DesyncServer:
         self.behaviours = list(behaviours)
         self.arrivals: list[dict[str, typing.Any]] = []
         self.idle_actions: list[tuple[netsim.ServerConn, str, str]] = []
+        self.response_alive: typing.Callable[[str], bool] = lambda rid: True
 
     def on_request(self, net: netsim.Net, sc: netsim.ServerConn, req: wire.Request) -> None:
         st = sc.st
         rid = req.target.decode("latin-1").strip("/")
         unclean = bool(st.segments or st.outq) or getattr(st, "exchange_open", False)
         b = self.behaviours.pop(0) if self.behaviours else {"framing": "cl"}
-        self.arrivals.append({"rid": rid, "conn": st.index, "method": req.method.decode(), "unclean_before": unclean, "behaviour": b, "nth_on_conn": len(sc.requests)})
+        prev = next((a for a in reversed(self.arrivals) if a["conn"] == st.index), None)
+        self.arrivals.append({"rid": rid, "conn": st.index, "method": req.method.decode(), "unclean_before": unclean, "behaviour": b, "nth_on_conn": len(sc.requests),
+                              "prev_rid": prev["rid"] if prev else None, "prev_response_alive": bool(prev and self.response_alive(prev["rid"]))})
         status = int(b.get("status", 200))
         body = body_for(rid)
         if b.get("tail-looks-like-response"):
@@ -63,7 +66,11 @@ class DesyncServer:
         elif stray == "response-now":
             msg += bogus
         closing = b.get("framing") == "close" or b.get("keepalive") is False or b.get("short")
-        if b.get("segments"):
+        if b.get("split-at-tail"):
+            # two pieces: everything up to the point where the body's tail starts to look like a response, then that tail
+            cut = msg.index(b"HTTP/1.1 200 OK\r\nContent-Length: 13")
+            sc.write_segmented([msg[:cut], msg[cut:]])
+        elif b.get("segments"):
             n = max(1, len(msg) // int(b["segments"]))
             sc.write_segmented([msg[i : i + n] for i in range(0, len(msg), n)])
             # the server stalls for a while in the middle of the body (the client's read times out / is reset) but the
@@ -103,6 +110,10 @@ def run_case(rec: Recorder, case: dict[str, typing.Any]) -> None:
     outcomes: dict[str, str] = {}
     keep: list[typing.Any] = []
     late: list[tuple[typing.Any, str]] = []
+    import weakref
+
+    refs: dict[str, typing.Any] = {}
+    server.response_alive = lambda rid: (rid in refs and refs[rid]() is not None)
     with netsim.Net(server) as net:
         pool = urllib3.HTTPConnectionPool("d.test", 80, maxsize=case["maxsize"], block=False, retries=case["retries"])
         for i, (method, how) in enumerate(zip(case["methods"], case["caller"])):
@@ -111,6 +122,7 @@ def run_case(rec: Recorder, case: dict[str, typing.Any]) -> None:
             try:
                 r = pool.urlopen(method, f"/{rid}", preload_content=False, retries=case["retries"], body=(b"x" if method == "POST" else None))
                 outcomes[rid] = f"status:{r.status}"
+                refs[rid] = weakref.ref(r)
                 if how == "read":
                     got += r.read()
                 elif how == "read-part-release":
@@ -135,7 +147,7 @@ def run_case(rec: Recorder, case: dict[str, typing.Any]) -> None:
                     r.release_conn()
                 elif how == "ignore":
                     keep.append(r)
-                elif how == "read-late":
+                elif how in ("read-late", "read-late-prefix"):
                     late.append((r, rid))
                     r = None
             except HTTPError as e:
@@ -146,13 +158,19 @@ def run_case(rec: Recorder, case: dict[str, typing.Any]) -> None:
             # responses kept open across this request are finished now: their connections go back next to this one's
             for lr, lrid in [x for x in late if x[1] != rid]:
                 try:
-                    delivered[lrid] = delivered.get(lrid, b"") + lr.read()
+                    if case["caller"][int(lrid[1:])] == "read-late-prefix":
+                        # stop exactly where the rest of the body looks like a response of its own, hand the
+                        # connection back and forget the response object
+                        delivered[lrid] = delivered.get(lrid, b"") + lr.read(len(body_for(lrid, 3)))
+                    else:
+                        delivered[lrid] = delivered.get(lrid, b"") + lr.read()
                     lr.release_conn()
                 except HTTPError as e:
                     outcomes[lrid] = "urllib3-error:" + type(e).__name__
                 except Exception as e:  # noqa: BLE001
                     outcomes[lrid] = "raw-error:" + type(e).__name__ + ":" + str(e)[:60]
                 late.remove((lr, lrid))
+                lr = None
             server.idle()
         arrivals = list(server.arrivals)
         pool.close()
@@ -164,6 +182,11 @@ def run_case(rec: Recorder, case: dict[str, typing.Any]) -> None:
         if out.startswith("raw-error"):
             rec.fail(case, "non-urllib3-exception", obs, f"request {rid}: {out}")
             return
+        mine_all = [a for a in arrivals if a["rid"] == rid]
+        if mine_all:
+            la = mine_all[-1]
+            prev_i = int(la["prev_rid"][1:]) if la.get("prev_rid") else None
+            obs["prev_on_conn"] = {"rid": la.get("prev_rid"), "caller": case["caller"][prev_i] if prev_i is not None and prev_i < len(case["caller"]) else None, "response_alive_at_arrival": la.get("prev_response_alive"), "unclean_before": la.get("unclean_before")}
         rec.mon("body_prefix")
         got = delivered[rid]
         full = body_for(rid)
@@ -240,6 +263,18 @@ def run_shard(ctx: Ctx, rec: Recorder) -> None:
                         rec.case(["two-idle", s1, s2, maxsize, retries, m3])
                         rec.mon("two_idle_connections")
                         run_case(rec, case)
+    # (i-c) a response released before its body was read, then forgotten, while the rest of its body (which looks like
+    # a response) is still on its way: the connection must not answer a later request
+    for maxsize in (2, 3):
+        for retries in (False, 2):
+            for m3 in ("GET", "POST"):
+                idx += 1
+                if not ctx.mine(idx):
+                    continue
+                case = {"maxsize": maxsize, "retries": retries, "methods": ["GET", "GET", m3, "GET"], "caller": ["read-late-prefix", "read", "read", "read"], "server": [{"framing": "cl", "tail-looks-like-response": True, "split-at-tail": True}, {"framing": "cl"}, {"framing": "cl"}, {"framing": "cl"}, {"framing": "cl"}]}
+                rec.case(["released-unread-collected", maxsize, retries, m3])
+                rec.mon("released_unread_then_collected")
+                run_case(rec, case)
     rec.exhaustive_parts.append(f"length-2 histories: {len(SERVER_BEHAVIOURS)} server behaviours x {len(CALLER_BEHAVIOURS)} caller behaviours x methods x retries x pool size, strided 1/{stride}")
     n = ctx.pick(8000, 300000)
     for i in range(n):
